@@ -1428,3 +1428,15 @@ func (e Expr) Constants() []float64 {
 	walkE(e)
 	return out
 }
+
+// HasNaN reports whether e is (or contains at top level) the NaN constant marker.
+func HasNaN(e Expr) bool {
+	for _, t := range e.terms {
+		for _, f := range t.f {
+			if f.a.Kind == AFn && f.a.Name == "const_NaN" {
+				return true
+			}
+		}
+	}
+	return false
+}
